@@ -58,6 +58,9 @@ def run(R, ctx):
     ex = families.ttl_extras()
     for _ in range(nb):
         lines += ttlgen.batch(rng, n, extra_setup=ex[0], extra_probe=ex[1])
+    for _ in range(1 if R.tier == "quick" else 6):
+        # a small batch of multi-key probes (the expiring key first, a key without deadline after it; KEYS over a key that is past its deadline and still stored)
+        lines += ttlgen.batch(rng, 60, only=ttlgen.MULTI_PROBES, plain=True, attach_ms=520)   # set-up done before the boundary; timers fire from +0.52 s on
     execsuite.run_exec_suite(R, ctx, name="ttl-batches", gens=families.all_gens(), nprog=(250, 3000), corpus="exec_c06",
                              what="TTL batches on the real clock: every way of attaching a deadline (SET EX/PX/EXAT, SETEX, EXPIRE with each option), "
                                   "modifiers (PERSIST, SET with/without KEEPTTL, RENAME, DEL, APPEND, MSET, refused NX/XX), probes by every reading and "
